@@ -1,13 +1,15 @@
 #!/bin/sh
-# usage: tools/sweep.sh <tier> <seed-list> <check-id>...  — run checks under several seeds with the
-# already built binary, writing evidence into the current directory (meant for `vp run`).
+# usage: tools/sweep.sh <tier> <seed-list> <check-id>...  — run checks under several seeds with a private
+# copy of the already built binary (so that later rebuilds in /verif, e.g. against a mutated /repo, cannot
+# leak into the sweep), writing evidence into the current directory (meant for `vp run`).
 TIER="$1"; SEEDS="$2"; shift 2
 export VERIF_DIR="$PWD"
 mkdir -p "$VERIF_DIR/evidence"
 [ -f "$VERIF_DIR/known_findings.json" ] || cp /verif/known_findings.json "$VERIF_DIR/"
 [ -d "$VERIF_DIR/findings" ] || cp -r /verif/findings "$VERIF_DIR/"
+cp /verif/target/release/pvsim "$VERIF_DIR/pvsim.snapshot" || exit 2
 for s in $SEEDS; do
   for id in "$@"; do
-    /verif/target/release/pvsim check "$id" --tier "$TIER" --seed "$s" 2>&1 | grep -v "^VERIF_SEED" 
+    "$VERIF_DIR/pvsim.snapshot" check "$id" --tier "$TIER" --seed "$s" 2>&1 | grep -v "^VERIF_SEED"
   done
 done
